@@ -1,7 +1,7 @@
 """C01 - Python codec round trip: decode(encode(v)) == v."""
 
 from .. import env
-from ..gen import schema as S
+from ..gen import schema as S, shapes, values as V
 from ..ref import codec as ref
 from . import codec_common as CC
 
@@ -34,12 +34,18 @@ def check_case(run, fcp, sch, name, v, text, sig=None):
     from fcp import serde
 
     case = {"schema": text, "struct": name, "value": v, "description": sch.decls if sch is not None else None}
+    import copy as _copy
+
+    pristine = _copy.deepcopy(v)
     try:
         b = serde.encode(fcp, name, v)
     except Exception as e:
         run.violation("encode raised %s: %s" % (type(e).__name__, e), case)
         return
     run.count("encode_calls")
+    if not ref.same(v, pristine):
+        run.violation("encode() modified the value it was given (the caller's object)", dict(case, value=pristine, value_after_encode=v))
+        return
     try:
         d = serde.decode(fcp, name, b)
     except Exception as e:
@@ -63,7 +69,62 @@ def check_case(run, fcp, sch, name, v, text, sig=None):
         run.sample({"schema": text, "struct": name, "value": v, "bytes": bytes(b)})
 
 
+OPT_SCRIPT = r"""
+import json, sys
+from fcp.parser import get_fcp_from_string
+from fcp.error import Logger
+from fcp import serde
+job = json.load(sys.stdin)
+fcp = get_fcp_from_string(job["schema"], Logger({})).unwrap()
+out = []
+for name, v in job["cases"]:
+    try:
+        b = serde.encode(fcp, name, v)
+        out.append(["ok", serde.decode(fcp, name, b)])
+    except BaseException as e:
+        out.append(["raised", "%s: %s" % (type(e).__name__, e)])
+print(json.dumps(out))
+"""
+
+
+def optimized_interpreter(run):
+    """The same round trip in interpreters started with -O and -OO (assert statements are compiled away)."""
+    import json
+    import subprocess
+    import sys as _sys
+
+    decls = [
+        shapes.mk_enum("Mode", 5),
+        shapes.mk_struct("In", [("p", 1, ("i", 6)), ("q", 0, ("u", 3))]),
+        shapes.mk_struct("Opt", [("a", 0, ("u", 5)), ("o", 1, ("opt", ("u", 9))), ("s", 2, ("opt", ("str",))), ("n", 3, ("opt", ("struct", "In"))),
+                                 ("l", 4, ("dyn", ("opt", ("enum", "Mode")))), ("f", 5, ("arr", ("f32",), 2)), ("z", 6, ("i", 3))]),
+    ]
+    sch = S.Sch(decls)
+    text = S.print_schema(decls)
+    r = run.rng("optimized")
+    vals = [v for v in V.struct_values(r, sch, "Opt", 6, {"finite": True}) if CC.signed_min_model(sch, ("struct", "Opt"), v)[1] == 0]
+    job = {"schema": text, "cases": [["Opt", v] for v in vals]}
+    for flag in ("-O", "-OO"):
+        try:
+            p = subprocess.run([_sys.executable, flag, "-c", OPT_SCRIPT], input=json.dumps(job), capture_output=True, text=True, timeout=300, env=env.child_env())
+            res = json.loads(p.stdout)
+        except Exception as e:
+            run.inconclusive_because("python %s child failed: %s: %s" % (flag, type(e).__name__, str(e)[:200]))
+            return
+        for (name, v), (status, got) in zip(job["cases"], res):
+            case = {"schema": text, "struct": name, "value": v, "interpreter": "python " + flag, "description": decls}
+            if status != "ok":
+                run.violation("under python %s the round trip raised %s" % (flag, got[:200]), case)
+                return
+            if not ref.same(got, v):
+                run.violation("under python %s decode(encode(v)) != v" % flag, dict(case, decoded=got))
+                return
+            run.count("roundtrips_under_optimizing_interpreters")
+
+
 def run(run):
+    if run.shard == 0:
+        optimized_interpreter(run)
     reach = CC.start_reach()
     units = CC.schema_units(run)
     for i, unit in enumerate(units):
